@@ -194,18 +194,26 @@ def run : PM String := do
   | "sumsel" => do
       let (k, x) ← tt; let idx ← natList
       let r := sumSel (fun i => idx.contains i) x
+      let allSummed := (List.range x.length).all (fun i => idx.contains i)
       match r with
-      | [c] => if c.m == 1 && c.n == 1 && c.r0 == 1 && c.r1 == 1 then pure s!"sc {c.get 0 0 0 0}"
+      | [c] => if allSummed && c.m == 1 && c.n == 1 && c.r0 == 1 && c.r1 == 1 then pure s!"sc {c.get 0 0 0 0}"
                else pure (showTT k r)
       | _ => pure (showTT k r)
   | "dot" => do let (_, x) ← tt; let (_, y) ← tt; pure s!"sc {dotFull GRat.conj x y}"
   | "dotp" => do
       let (_, x) ← tt; let (_, y) ← tt; let ax ← natList
       let r := dotPartial GRat.conj x y ax
+      let allSummed := (List.range x.length).all (fun i => ax.contains i)
       match r with
-      | [c] => if c.m == 1 && c.n == 1 && c.r0 == 1 && c.r1 == 1 then pure s!"sc {c.get 0 0 0 0}"
+      | [c] => if allSummed && c.m == 1 && c.n == 1 && c.r0 == 1 && c.r1 == 1 then pure s!"sc {c.get 0 0 0 0}"
                else pure (showTT false (r.map freeze))
       | _ => pure (showTT false (r.map freeze))
+  | "rankchop" => do
+      let k ← nat; let sv ← many k num; let e ← num
+      pure s!"sc {Trunc.rankChop (sv.toList.map (·.re)) e.re}"
+  | "rankchopcpp" => do
+      let k ← nat; let sv ← many k num; let e ← num
+      pure s!"sc {Trunc.rankChopCpp (sv.toList.map (·.re)) e.re}"
   | "normsq" => do let (_, x) ← tt; pure s!"sc {normSq GRat.conj x}"
   | "bilinear" => do
       let (_, x) ← tt; let (_, A) ← tt; let (_, y) ← tt
@@ -259,7 +267,7 @@ def run : PM String := do
       let (_, x) ← tt; let k ← nat
       let ps ← many k (do let a ← nat; let b ← nat; pure (a, b))
       let v ← num
-      pure (showTT false (padT x ps.toList v))
+      pure (showTT false ((padTensor x ps.toList v).map freeze))
   | "padM" => do
       let (_, x) ← tt; let k ← nat
       let ps ← many k (do let a ← nat; let b ← nat; pure (a, b))
